@@ -31,6 +31,8 @@ type Snap struct {
 	Restarts    int
 	HeapContent []int
 	HeapIndices []int
+	Watched     [][]int
+	PBFlags     [][]int
 }
 
 func (sn Snap) Sx() Sx {
@@ -39,7 +41,7 @@ func (sn Snap) Sx() Sx {
 		rs[i] = Ints(r)
 	}
 	return L(I(sn.Kind), I(sn.Lvl), Ints(sn.Trail), Ints(sn.Model), L(rs...), Ints(sn.Assumptions), Ints(sn.Conflict),
-		IntLists(sn.Constrs), B(sn.Done), I(sn.ResKind), Ints(sn.Learnt), I(sn.Unit), Ints(sn.Props), I(sn.NewLvl), I(sn.NbOrig), B(sn.CP), I(sn.Restarts), Ints(sn.HeapContent), Ints(sn.HeapIndices))
+		IntLists(sn.Constrs), B(sn.Done), I(sn.ResKind), Ints(sn.Learnt), I(sn.Unit), Ints(sn.Props), I(sn.NewLvl), I(sn.NbOrig), B(sn.CP), I(sn.Restarts), Ints(sn.HeapContent), Ints(sn.HeapIndices), IntLists(sn.Watched), IntLists(sn.PBFlags))
 }
 
 // SnapCase: a solve with tracing on.
@@ -157,6 +159,10 @@ func genSnap(r *rand.Rand, part string, idx int, tier string) *SnapCase {
 	} else {
 		c.Cfg.Rst = 0
 	}
+	if r.Intn(3) == 0 { // dense: every tracing point of the first part of the run (the watch and heap invariants are
+		// broken long before an answer is wrong: look at many consecutive quiet points)
+		c.Max, c.Every, c.Quiet = 40, 1, true
+	}
 	return c
 }
 
@@ -232,6 +238,7 @@ func runSnap(e *emitter, idx int, c *SnapCase) {
 				orig = sn.Constrs[:sn.NbOrig]
 			}
 			sn.Constrs = sn.Constrs[sn.NbOrig:]
+			sn.Watched, sn.PBFlags = nil, nil // the whole-run judge does not read them
 			sn.NbOrig = 0
 			items[i] = sn.Sx()
 		}
